@@ -268,7 +268,7 @@ def _competitors(case, info, t, z_est, qt, empi):
 
 
 def _optimality(ctx, case, info, t, a, sizes, q, z_est, comps, tag, weights=None):
-    name = case["loss"] if tag == "backtracking" else {"use": "se", "re": "re", "are": "se"}[case["cvx_loss"]]
+    name = case["loss"] if tag.endswith("backtracking") else {"use": "se", "re": "re", "are": "se"}[case["cvx_loss"]]
     p_est = split(a @ z_est, sizes)
     if name.startswith("re"):
         bad = any(np.any((qj > 0) & (pj < 1e-6)) for pj, qj in zip(p_est, q))
@@ -302,7 +302,12 @@ def check_optimality(case, ctx):
         return
     z_est = tomo.estimate_stacked(res.estimated_qoperation)
     comps = _competitors(case, info, t, z_est, qt, empi)
-    l_est = _optimality(ctx, case, info, t, a, sizes, q, z_est, comps, "backtracking")
+    # failures of a run that shows the stall signature are named "stalled:backtracking:..." (known finding C11-F2 covers
+    # only those); a run that converged to a non-optimal point is reported under the plain name
+    bt = "stalled:backtracking" if c10.line_search_stalled(det) else "backtracking"
+    if bt != "backtracking":
+        ctx.label("line-search-stalled")
+    l_est = _optimality(ctx, case, info, t, a, sizes, q, z_est, comps, bt)
     if l_est is None:
         return
     # independent solve of the same problem
@@ -316,9 +321,9 @@ def check_optimality(case, ctx):
             pz = split(a @ z_feas, sizes)
             if not (case["loss"].startswith("re") and any(np.any((qj > 0) & (pj < 1e-6)) for pj, qj in zip(pz, q))):
                 l_ind = loss_ref(case["loss"], pz, q)
-                ctx.leq(l_est, l_ind, max(TOL_L, 10.0 * (case.get("algo_eps") or 0.0)) * (1 + abs(l_est)), "backtracking:not_worse_than_independent_solve")
+                ctx.leq(l_est, l_ind, max(TOL_L, 10.0 * (case.get("algo_eps") or 0.0)) * (1 + abs(l_est)), bt + ":not_worse_than_independent_solve")
                 if case["loss"].startswith("se"):
-                    ctx.close(z_est, z_feas, TOL_VAR * (1 + np.linalg.norm(z_est)), "backtracking:agrees_with_independent_minimiser")
+                    ctx.close(z_est, z_feas, TOL_VAR * (1 + np.linalg.norm(z_est)), bt + ":agrees_with_independent_minimiser")
     # history: monotone loss, consistent lengths, fx[i] = L(x[i]) (quara's own value), independent loss monotone as well
     fx = [float(v) for v in det.fx]
     ctx.check(len(det.x) == len(fx) == det.k + 1 and len(det.y) == det.k and len(det.alpha) == det.k and len(det.error_values) == det.k,
@@ -429,9 +434,10 @@ def check_cvxpy(case, ctx):
         pb = split(a @ zb, sizes)
         if not (name == "re" and any(np.any((qj > 0) & (pj < 1e-6)) for pj, qj in zip(pb, q))):
             lb = loss_ref(name, pb, q)
-            ctx.close(l_est, lb, 2e-5 * (1 + abs(lb)), "estimators_agree_in_loss")
+            pre = "stalled:" if c10.line_search_stalled(bres.detailed_results[0]) else ""
+            ctx.close(l_est, lb, 2e-5 * (1 + abs(lb)), pre + "estimators_agree_in_loss")
             if name == "se":
-                ctx.close(z_feas, zb, TOL_VAR * scale, "estimators_agree_in_variables")
+                ctx.close(z_feas, zb, TOL_VAR * scale, pre + "estimators_agree_in_variables")
     ctx.nontrivial(case["datadesc"]["data"] != "exact")
 
 
